@@ -89,6 +89,10 @@ def service_cases(tier, inst):
     if tier == "quick":
         for ms in P.stream_multisets(inst, K, 2, cps=(1, 2), dts=(1,), iso=True):
             yield {"streams": ms, "uset": 1, "inst": list(inst)}
+    # zero-crossing family: lattice translated so that it contains 0.0 and a negative temperature (a pinch at exactly 0.0)
+    z = A.zero_inst(inst)
+    for ms in P.stream_multisets(z, K, 2 if tier == "quick" else 3, cps=(1, 2), dts=(0, 1), iso=True):
+        yield {"streams": ms, "uset": 0, "inst": list(z)}
 
 
 def service_run(case, res: Result):
